@@ -4,7 +4,7 @@ for p in $1/${PAT:-neutral*.diff}; do
   f=$(grep '^+++ b/' $p | head -1 | sed 's|+++ b/||')
   case $f in
     pipe/fork/*) ids="C09 C10 C06";;
-    pipe/unbound.go) ids="C08";;
+    pipe/unbound.go|pipe/queue.go) ids="C08";;
     pipe/*) ids="C05 C06 C07 C11 C12 C13";;
     hseq/*) ids="C03 C01";;
     optics/*) ids="C01 C02 C04";;
